@@ -7,6 +7,16 @@
 (* whether the string was coded, and must be consistent with MustCode /    *)
 (* MayCode computed from the spec's OWN statistics of the source regions.  *)
 (*                                                                         *)
+(* WHICH free bytes serve as tags is not part of the contract either (the  *)
+(* property demands exact bytes back or a refusal, and one byte for the    *)
+(* dominant strings): the monitor only knows the bytes that MAY be tags -  *)
+(* those no source region saw as a first byte - learns the actual ones     *)
+(* from refusals, and demands consistency: at most k tags, a byte that     *)
+(* carried an accepted literal is no tag, no refusal of an input whose     *)
+(* first byte the sources saw or which is a dictionary entry.  That an     *)
+(* accepted input is never read back as different bytes is checked on the  *)
+(* read itself.                                                            *)
+(*                                                                         *)
 (* Beyond the heavy-hitter summary's exact regime (more distinct strings   *)
 (* than half its capacity) only clearly dominant strings must be coded.    *)
 (***************************************************************************)
@@ -32,7 +42,7 @@ ErrAll(e, whys, acc) == IF whys = <<>> THEN acc ELSE ErrAll(e, Tail(whys), Err(e
 
 \* monitor view of a slot: which tags are assigned, which strings must / may be entries,
 \* what was learnt from the log about the ties, and the statistics it accumulates itself
-Fresh == [tags |-> {}, must |-> {}, may |-> {}, anyseen |-> FALSE, coded |-> {}, literal |-> {}, k |-> 0,
+Fresh == [tags |-> {}, ktags |-> {}, nontags |-> {}, must |-> {}, may |-> {}, anyseen |-> FALSE, coded |-> {}, literal |-> {}, k |-> 0,
           counts |-> NoCounts, first |-> {}, issued |-> <<>>, exact |-> TRUE, poisoned |-> FALSE]
 
 Init == l = 1 /\ slots = <<>> /\ skip = FALSE /\ errs = 0 /\ cleared = {} /\ reserved = {}
@@ -48,9 +58,8 @@ MergedView(srcs) ==
       total == Total(counts, DOMAIN counts)
       k == IF exact THEN NumCoded(srcs)
            ELSE IF Cardinality(free) < Cardinality(DOMAIN counts) THEN Cardinality(free) ELSE Cardinality(DOMAIN counts)
-      tagseq == FirstK(free, k)
   IN  [Fresh EXCEPT
-         !.tags = {tagseq[i] : i \in 1..k},
+         !.tags = IF k = 0 THEN {} ELSE free,      \* the bytes that MAY be tags; at most k of them are
          !.k = k,
          !.must = IF exact THEN {s \in DOMAIN counts : MustCode(srcs, s)}
                   ELSE IF k = 0 THEN {} ELSE {s \in DOMAIN counts : 4 * counts[s] > 3 * total},
@@ -65,19 +74,22 @@ Step(e) ==
     [] e.ev = "push" ->
          LET sl == slots[e.s]
              v == e.v
-             hitsTag == v # <<>> /\ v[1] \in sl.tags
+             mayBeTag == v # <<>> /\ v[1] \in sl.tags /\ v[1] \notin sl.nontags
+             knownTag == v # <<>> /\ v[1] \in sl.ktags
              inMust == v \in sl.must \/ v \in sl.coded
              inMay == (v \in sl.may /\ v \notin sl.literal) \/ v \in sl.coded
          IN  IF e.panic
-             THEN \* a refusal is legitimate only for an input the dictionary cannot represent
-                  IF hitsTag /\ ~inMust
-                  THEN slots' = [slots EXCEPT ![e.s].poisoned = TRUE] /\ UNCHANGED <<skip, errs>>
+             THEN \* a refusal is legitimate only for an input the dictionary cannot represent: its first byte may be
+                  \* a tag (no source saw it as a first byte, no literal starting with it was accepted, and it does not
+                  \* raise the number of tags beyond the number of entries) and it is not a string that must be coded
+                  IF mayBeTag /\ ~inMust /\ Cardinality(sl.ktags \cup {v[1]}) <= sl.k
+                  THEN slots' = [slots EXCEPT ![e.s].poisoned = TRUE, ![e.s].ktags = @ \cup {v[1]}] /\ UNCHANGED <<skip, errs>>
                   ELSE errs' = Err(e, "push-panicked") /\ skip' = TRUE /\ UNCHANGED slots
              ELSE LET wasCoded == Len(v) > 1 /\ e.delta = 1
                       \* every failing check of this push is reported (one wrong answer must not hide another)
                       readwhy == IF e.read_err # "" THEN <<"read-failed">>
                                  ELSE IF e.read # v THEN <<"read-back-differs">> ELSE <<>>
-                      sizewhy == IF hitsTag /\ ~inMay THEN "ambiguous-input-accepted"
+                      sizewhy == IF knownTag /\ ~inMay THEN "ambiguous-input-accepted"
                                  ELSE IF inMust /\ Len(v) > 1 /\ ~wasCoded THEN "frequent-string-not-coded"
                                  ELSE IF ~inMay /\ e.delta # Len(v) THEN "literal-size-differs"
                                  ELSE IF wasCoded /\ ~inMay THEN "coded-without-statistics"
@@ -91,6 +103,7 @@ Step(e) ==
                                   [sl EXCEPT !.issued = Append(@, v),
                                              !.counts = IF v = <<>> THEN @ ELSE Bump(@, v),
                                              !.first = IF v = <<>> THEN @ ELSE @ \cup {v[1]},
+                                             !.nontags = IF v # <<>> /\ ~wasCoded /\ ~inMay THEN @ \cup {v[1]} ELSE @,
                                              !.coded = IF wasCoded THEN @ \cup {v} ELSE @,
                                              !.literal = IF Len(v) > 1 /\ ~wasCoded THEN @ \cup {v} ELSE @]]
                            /\ UNCHANGED <<skip, errs>>
@@ -128,6 +141,9 @@ Next == /\ l <= Len(Rec)
 Spec == Init /\ [][Next]_vars
 
 \* invariants of the monitor state, evaluated in every state of every recorded run
-TagsFree == \A s \in DOMAIN slots : Cardinality(slots[s].tags) = slots[s].k /\ slots[s].must \subseteq slots[s].may
+TagsFree == \A s \in DOMAIN slots : /\ slots[s].must \subseteq slots[s].may
+                                     /\ slots[s].ktags \subseteq slots[s].tags       \* learnt tags are bytes no source saw first
+                                     /\ Cardinality(slots[s].ktags) <= slots[s].k    \* never more tags than entries
+                                     /\ slots[s].ktags \cap slots[s].nontags = {}
 LearntConsistent == \A s \in DOMAIN slots : slots[s].coded \cap slots[s].literal = {}
 =============================================================================
